@@ -12,7 +12,9 @@ import BsVerif.Gen.Dwregs
                                                  and, per outer frame, the CFA of the frame below it
     frame <k> <pc|noframe>                      select frame k whose pc is <pc>; answer: the function DIE
     locals | lookup <name> | args | arg <name>  DIE ids
-    read <name> [hint] | readarg <name> [hint]  where the value is read from (address / value)
+    read <name> [hint] | readarg <name> [hint]  where the value is read from (address / value); the hint (what the
+                                                 implementation showed) is echoed ONLY where this model does not decide: expressions
+                                                 outside `Loc`, registers of outer frames other than the stack pointer
     reg2dw <r> | dw2reg <n> | dwmap <n>         the three register tables -/
 namespace Driver.C19
 open BsVerif BsVerif.Proto BsVerif.Scope
@@ -110,7 +112,7 @@ def frameRegs (s : St) : FrameRegs := Scope.frameRegs s.regs0 s.sps s.frame
 def showRead (hint : Option String) : ReadResult → String
   | .addr a => s!"addr {hex a}"
   | .val v => s!"val {hex v}"
-  | .noEntry => "noentry"
+  | .noEntry => "nodata"
   | .unknownReg _ => match hint with | some h => h.replace "_" " " | none => "unk"
   | .unsupported => match hint with | some h => h.replace "_" " " | none => "unsup"
 
@@ -118,7 +120,7 @@ def readDie (s : St) (id : Nat) (hint : Option String) : String :=
   match s.locs.find? (·.1 == id), s.fn.bind fun f => (s.fbs.find? (·.1 == f)).map (·.2) with
   | some (_, a), some fb => showRead hint (readVar (frameRegs s) fb a s.pc)
   | some (_, a), none => showRead hint (readVar (frameRegs s) 0x7f a s.pc)
-  | none, _ => "noloc"
+  | none, _ => "nodata"
 
 def step (s : St) : List String → St × String
   | ["new", _] => ({}, "ok")
@@ -136,6 +138,7 @@ def step (s : St) : List String → St × String
   | ["fb", id, n] => match hexNat? id, hexNat? n with
     | some id, some n => ({ s with fbs := (id, n) :: s.fbs }, "ok")
     | _, _ => (s, "bad-op")
+  | ["stops", _] => (s, "ok")
   | ["run", "exit"] => (s, "exit")
   | ["run", pc, regs, sps] => match hexNat? pc, decList? hexNat? regs, decList? hexNat? sps with
     | some pc, some regs, some sps =>
